@@ -32,7 +32,7 @@ ASSUMPTIONS = ["'subscribed at that time' = at the instant the round was request
 FLOORS = {"quick": {"scripts": 5000, "notifications_checked": 150000, "initial_notifications": 15000, "explicit_round_notifications": 20000,
                     "cyclic_rounds": 10000, "session_ids_checked": 150000, "refusals_checked": 2000, "latency_scripts": 1500,
                     "rounds_with_no_subscriber": 1500, "unsubscribe_between_request_and_send": 30, "unsubscribe_of_unsubscribed_endpoint": 800,
-                    "wrap_notifications_checked": 130000, "wrap_session_id_wraps": 2}}
+                    "wrap_notifications_checked": 130000, "wrap_session_id_wraps": 2, "crowd_endpoints_checked": 5000}}
 
 FOREVER = 0xFFFFFF
 SID, MAJ = 0xA001, 4
@@ -464,6 +464,8 @@ def shards(tier, seed):
     # "long enough to wrap the per-destination session id": 65535 = 3*5*17*257, so with 4 or 7 events per round the id
     # 0xFFFF is not the last one of its datagram
     out.append(dict(shard=50, seed=seed, mode="wrap", events=4, rounds=65535 // 4 + 30))
+    out.append(dict(shard=52, seed=seed, mode="wrap", events=3, rounds=12, crowd=1300))
+    out.append(dict(shard=53, seed=seed, mode="wrap", events=2, rounds=8, crowd=4500 if tier == "quick" else 70000))
     if tier != "quick":
         out.append(dict(shard=51, seed=seed, mode="wrap", events=7, rounds=2 * 65535 // 7 + 30))
     return out
@@ -499,12 +501,24 @@ def wrap_walk(spec, ctx):
             eg.subscribe(ep)
         res.update(svc=svc, eg=eg)
 
+    # with "crowd": after three rounds very many other endpoints subscribe, get their initial notifications and leave again;
+    # the two long-term subscribers' counters go on as if nothing had happened
+    crowd = spec.get("crowd", 0)
+    crowd_eps = [H.IPv4EndpointOption(address=ipaddress.IPv4Address(f"10.17.{i >> 8 & 255}.{i & 255}"), l4proto=H.L4Protocols.UDP, port=6200)
+                 if i % 4 else H.IPv6EndpointOption(address=ipaddress.IPv6Address(f"2001:db8:17::{i + 1:x}"), l4proto=H.L4Protocols.UDP, port=6200)
+                 for i in range(crowd)]
     h.at(0.0, setup)
     t = 0.125
     for r in range(spec["rounds"]):
         t += 2.0 ** -10
+        if crowd and r == 3:
+            h.at(t, lambda: [res["eg"].subscribe(ep) for ep in crowd_eps])
+            t += 2.0 ** -10
+            h.at(t, lambda: [res["eg"].unsubscribe(ep) for ep in crowd_eps])
+            t += 2.0 ** -10
         h.at(t, lambda: res["eg"].notify_once(list(res["eg"].values.keys())))
     h.run(t + 1.0)
+    longterm = {("10.0.17.21", 6101), ("2001:db8::17:21", 6102, 0, 0)}
     per = collections.defaultdict(list)
     for tt, _it, data, dst in res["svc"].transport.sent:
         msgs, broken = refwire.split_datagram(data)
@@ -531,15 +545,21 @@ def wrap_walk(spec, ctx):
                 ctx.count("wrap_session_id_wraps")
             exp = 1 if exp >= 0xFFFF else exp + 1
         got = collections.Counter(m["mid"] & 0x7FFF for _tt, m in seq)
+        if crowd and tuple(dst) not in longterm:
+            ctx.count("crowd_endpoints_checked")
+            if len(seq) != nev or any(got[0x31 + i] != 1 for i in range(nev)):
+                ctx.violation("initial-notification-missing", dict(dst=dst, notifications=len(seq), expected=nev, crowd=crowd),
+                              dict(kind="wrap", spec=spec))
+            continue
         if len(seq) != want_n or any(got[0x31 + i] != spec["rounds"] + 1 for i in range(nev)):
             ctx.violation("explicit-round-misses-a-subscribed-endpoint", dict(dst=dst, notifications=len(seq), expected=want_n,
                                                                              per_event=dict(got)), dict(kind="wrap", spec=spec))
-    if len(per) != 2:
+    if len(per) != 2 + crowd:
         ctx.violation("explicit-round-misses-a-subscribed-endpoint", dict(destinations=list(per)), dict(kind="wrap", spec=spec))
     for p in h.problems():
         ctx.violation("unexpected-exception-during-run", dict(problem=p), dict(kind="wrap", spec=spec))
     h.close()
-    ctx.case(("wrap", nev), True)
+    ctx.case(("wrap", nev, crowd), True)
 
 
 def run(spec, ctx):
